@@ -423,6 +423,10 @@ type refHandler struct {
 	// aggregate: number of events consumed
 	consumed int
 	maxLevel alert.Level
+	// this step only (steps are separated by quiescence, which includes the aggregate flush)
+	stepConsumed int
+	stepMax      alert.Level
+	aggSeen      int // aggregate events of this handler already judged
 }
 
 type expDelivery struct {
@@ -489,6 +493,10 @@ func (m *modelState) refCollect(e refEvent, depth int) {
 			h.consumed++
 			if e.level > h.maxLevel {
 				h.maxLevel = e.level
+			}
+			h.stepConsumed++
+			if e.level > h.stepMax {
+				h.stepMax = e.level
 			}
 		}
 	}
@@ -631,7 +639,7 @@ func runModel(x *core.Ctx, r *core.Rng) {
 				return
 			}
 		case k < 14: // register a handler
-			if nh >= 8 {
+			if nh >= 10 {
 				continue
 			}
 			nh++
@@ -736,12 +744,39 @@ func runModel(x *core.Ctx, r *core.Rng) {
 					return
 				}
 				ns.Match = ms.text
-				logf("UpdateHandlerSpec(%s match=%q)", key, ms.text)
+				rename := r.Chance(0.4)
+				if rename {
+					nh++
+					ns.ID = fmt.Sprintf("h%dr", nh)
+				}
+				logf("UpdateHandlerSpec(%s -> id %s match=%q)", key, ns.ID, ms.text)
 				if err := svc.UpdateHandlerSpec(old, ns); err != nil {
 					m.fail("handler-spec-rejected", "update failed: "+firstWords(err.Error(), 6), "%v", err)
 					return
 				}
 				h.match = &ms
+				if rename {
+					delete(m.hs, key)
+					h.id = ns.ID
+					m.hs[h.topic+"/"+h.id] = h
+					// the API lists exactly the defined handlers
+					specs, _ := svc.HandlerSpecs(h.topic, "")
+					var ids, want []string
+					for _, sp := range specs {
+						ids = append(ids, sp.ID)
+					}
+					for _, hh := range m.hs {
+						if hh.topic == h.topic && hh.kind != "anon" {
+							want = append(want, hh.id)
+						}
+					}
+					sort.Strings(ids)
+					sort.Strings(want)
+					if fmt.Sprint(ids) != fmt.Sprint(want) {
+						m.fail("handler-specs", "the handlers listed for a topic are not the defined ones", "topic %s lists %v, defined are %v", h.topic, ids, want)
+						return
+					}
+				}
 			}
 		case k < 17: // delete a topic: "deletes all known events and state"; it returns with the next event
 			t := topics[r.Intn(3)]
@@ -771,6 +806,33 @@ func runModel(x *core.Ctx, r *core.Rng) {
 		}
 		if !quiesce() {
 			return
+		}
+		// aggregate events of this step: level == most severe level consumed in this step
+		for k, h := range m.hs {
+			if h.kind != "aggregate" {
+				continue
+			}
+			var mine []alert.Event
+			for _, e := range aggRec.snapshot() {
+				if e.State.ID == h.aggID {
+					mine = append(mine, e)
+				}
+			}
+			if h.stepConsumed > 0 {
+				got := alert.OK
+				for _, e := range mine[min(h.aggSeen, len(mine)):] {
+					if e.State.Level > got {
+						got = e.State.Level
+					}
+				}
+				x.Count("aggregate_levels_compared", 1)
+				if got != h.stepMax {
+					m.fail("aggregate", "aggregate event level differs from the most severe event of its interval", "handler %s: the events consumed in this step have max level %v, the aggregate event(s) emitted for them carry %v", k, h.stepMax, got)
+					return
+				}
+			}
+			h.aggSeen = len(mine)
+			h.stepConsumed, h.stepMax = 0, alert.OK
 		}
 		for t, evs := range m.events {
 			if mx := maxOf(evs); mx != lastMax[t] {
